@@ -1,5 +1,10 @@
 /-
   C15 — Redelegation: pending entry recorded, onward hop blocked until maturity, exact cleanup.
+  Over INV-R (AllianceProofs/RedelInv, RedelHistory: the record store, the time queue and the per-source index agree in
+  every state of every history): while an entry INTO a validator is queued the same delegator's `MsgRedelegate` of that
+  asset out of it cannot succeed (`onward_hop_blocked_while_pending`); a successful end-of-block leaves nothing in any
+  of the three stores whose completion time lies before the block time and removes nothing else
+  (`matured_entries_are_removed`). Value preservation of the move itself is C04/C01's and the correspondence's.
 -/
 import AllianceProofs
 namespace Alliance
@@ -92,6 +97,63 @@ theorem cleanup_boundary (w : World) (q : Time × List Redel) (hq : q ∈ w.rede
     have := hmem.2
     simp at this
     unfold Time at *; omega
+
+/-! ## every history -/
+
+/-- INV-R: the three redelegation stores agree in every state of every history — operations on any response tape, failed
+    transactions, environment steps that leave the stores alone; no scope condition -/
+theorem stores_agree_in_every_history (w w' : World) (h0 : RX w) (hr : ReachR w w') : RX w' := reach_rx w w' h0 hr
+
+/-- what the agreement says, spelled out -/
+theorem agreement_meaning (w : World) (h : RX w) :
+    (∀ p ∈ w.redelQueue, ∀ r ∈ p.2, (∃ x, AL.get w.redels (r.del, r.denom, r.dst, p.1) = some x) ∧
+        (r.src, p.1, r.denom, r.dst, r.del) ∈ w.redelIndex) ∧
+    (∀ p ∈ w.redels, ∃ es, AL.get w.redelQueue p.1.2.2.2 = some es ∧ ∃ r ∈ es, (r.del, r.denom, r.dst, p.1.2.2.2) = p.1) ∧
+    (∀ k ∈ w.redelIndex, ∃ es, AL.get w.redelQueue k.2.1 = some es ∧ ∃ r ∈ es, (r.src, k.2.1, r.denom, r.dst, r.del) = k) :=
+  ⟨h.q_rec, h.rec_q, h.idx_q⟩
+
+/-- the onward hop is blocked: while an entry of delegator `r.del` and denom `r.denom` INTO validator `r.dst` is queued,
+    no `MsgRedelegate` of that denom out of `r.dst` by that delegator succeeds — any amount, any target -/
+theorem onward_hop_blocked_while_pending (w0 w : World) (h0 : RX w0) (hr : ReachR w0 w) (t : Time) (es : List Redel)
+    (hq : (t, es) ∈ w.redelQueue) (r : Redel) (hmem : r ∈ es) (dst : ValId) (amt : Int) (w' : World) :
+    step (.redelegate r.del r.dst dst r.denom amt) w ≠ (.ok (), w') :=
+  hop_blocked w (reach_rx w0 w h0 hr) t es hq r hmem dst amt w'
+
+/-- at the end-of-block: no record, queue bucket or index key with completion before the block time is left, and every
+    record that has not matured is still there (so the restriction lasts exactly until maturity) -/
+theorem matured_entries_are_removed (w0 w w' : World) (h0 : RX w0) (hr : ReachR w0 w) (h : endBlocker w = (.ok (), w')) :
+    (∀ p ∈ w'.redels, ¬ p.1.2.2.2 < w.time) ∧ (∀ p ∈ w'.redelQueue, ¬ p.1 < w.time) ∧
+    (∀ k ∈ w'.redelIndex, ¬ k.2.1 < w.time) ∧ (∀ p ∈ w.redels, ¬ p.1.2.2.2 < w.time → p ∈ w'.redels) :=
+  endBlocker_cleans w w' (reach_rx w0 w h0 hr) h
+
+/-- non-vacuity: the empty stores agree -/
+example : RX (default : World) :=
+  ⟨List.Pairwise.nil, List.Pairwise.nil, List.Pairwise.nil, fun p hp => absurd hp List.not_mem_nil,
+   fun p hp => absurd hp List.not_mem_nil, fun k hk => absurd hk List.not_mem_nil⟩
+
+def exR : World := { (default : World) with
+  time := 5
+  redels := [((10, 0, 1, 9), { del := 10, src := 0, dst := 1, denom := 0, amount := 100 })]
+  redelQueue := [(9, [{ del := 10, src := 0, dst := 1, denom := 0, amount := 100 }])]
+  redelIndex := [(0, 9, 0, 1, 10)] }
+def exRedel : Redel := { del := 10, src := 0, dst := 1, denom := 0, amount := 100 }
+/-- non-vacuity: a state with one pending redelegation 0 → 1 satisfies the agreement and has a queued entry -/
+example : RX exR ∧ (9, [exRedel]) ∈ exR.redelQueue := by
+  refine ⟨⟨List.pairwise_singleton _ _, List.pairwise_singleton _ _, List.pairwise_singleton _ _, ?_, ?_, ?_⟩, List.mem_singleton.mpr rfl⟩
+  · intro p hp r hr
+    have hp' : p = (9, [exRedel]) := List.mem_singleton.mp hp
+    subst hp'
+    have hr' : r = exRedel := List.mem_singleton.mp hr
+    subst hr'
+    exact ⟨⟨exRedel, by decide⟩, by decide⟩
+  · intro p hp
+    have hp' : p = ((10, 0, 1, 9), exRedel) := List.mem_singleton.mp hp
+    subst hp'
+    exact ⟨[exRedel], by decide, exRedel, List.mem_singleton.mpr rfl, rfl⟩
+  · intro k hk
+    have hk' : k = (0, 9, 0, 1, 10) := List.mem_singleton.mp hk
+    subst hk'
+    exact ⟨[exRedel], by decide, exRedel, List.mem_singleton.mpr rfl, rfl⟩
 
 end C15
 end Alliance
